@@ -43,6 +43,7 @@ WithoutColor(s)  == [s EXCEPT !.fg = Unset, !.bg = Unset]
 UpdateLink(s, l) == [s EXCEPT !.link = l]
 Copy(s)          == s
 FromColor(f, b)  == [Null EXCEPT !.fg = f, !.bg = b]
+BackgroundStyle(s) == [Null EXCEPT !.bg = s.bg]      \* Style.background_style: "a Style with background only"
 IsNull(s)        == s = Null
 
 \* ---- 2. colour words --------------------------------------------------------------------
@@ -231,4 +232,5 @@ ICopy(o) == IF o.null THEN INull ELSE [o EXCEPT !.null = FALSE]
 IWithoutColor(design, o) ==
     IF o.null THEN INull ELSE Rehash(design, [o EXCEPT !.fg = Unset, !.bg = Unset, !.null = FALSE], o.hk)
 IUpdateLink(design, o, l) == Rehash(design, [o EXCEPT !.link = l, !.null = FALSE], o.hk)
+IBackgroundStyle(o) == IInit(BackgroundStyle(Abs(o)))      \* background_style goes through Style(bgcolor=...)
 =============================================================================
